@@ -1,5 +1,5 @@
 """C20 — HyperLogLog survives serialisation and rejects invalid serialised state."""
-from ..terms import TermBuilder, fmt, mk, const
+from ..terms import TermBuilder, fmt, mk, const, subterms
 from ..guards import atomic_facts, int_bounds, has_eq_fact, panic_sites
 from ..paths import PathEnumerator
 from .common import self_field_term
@@ -92,7 +92,12 @@ def run(ctx):
                   "HyperLogLog { .. } is built from unvalidated parts: b range established = [%s, %s] (constructor requires %s), registers.len() == 1 << b established = %s"
                   % (lo, hi, "[%s, %s]" % ref if ref else "?", len_ok))
         if f.local_ty(0).startswith("std::result::Result<") and okr and len_ok:
-            pass
+            # a fallible builder of sketches from serialised parts must also ACCEPT every state the constructor can produce,
+            # otherwise a sketch with a legal precision does not survive serialisation (`(MIN_B..MAX_B)` for `(MIN_B..=MAX_B)`)
+            ctx.check((lo, hi) == tuple(ref), "R20-accepts-valid", f.key, st.span,
+                      "accepts exactly the precisions the constructor accepts: %s <= b <= %s" % (lo, hi),
+                      "rejects valid state: b is accepted only in [%s, %s] but the constructor produces sketches with b in [%s, %s] — such a sketch cannot be deserialised again"
+                      % (lo, hi, ref[0], ref[1]))
 
     # ---- deserialisation-reachable code -------------------------------------------------
     de = None
@@ -175,9 +180,18 @@ def run(ctx):
                 ser_fields[a[1][1]] = a[2]
     struct_fields = [fl["name"] for fl in prog.adts[HLL]["variants"][0]["fields"] if "PhantomData" not in fl["ty_s"]]
     fields_const = None
-    for k, c in prog.consts.items():
-        if c["name"] == "FIELDS" and "deserialize" in k:
-            fields_const = prog.const_value(k)
+    # the field table is whatever `deserialize_struct(name, FIELDS, visitor)` is given — a const inside deserialize() or a module one
+    tbd_ = TermBuilder(de, prog)
+    for bi_, t_ in de.calls():
+        if t_.callee_name() == "deserialize_struct" and len(t_.args) >= 3:
+            a_ = tbd_.operand(t_.args[-2], bi_, len(de.blocks[bi_].stmts))
+            for x_ in subterms(a_):
+                if x_[0] == "namedconst" and x_[1] in prog.consts:
+                    fields_const = prog.const_value(x_[1])
+    if fields_const is None:
+        for k, c in prog.consts.items():
+            if c["name"] == "FIELDS" and k.startswith("hyperloglog::serde"):
+                fields_const = prog.const_value(k)
     visit_str = [f for f in prog.fns.values() if f.name == "visit_str" and f.key in reach]
     arms = set()
     for f in visit_str:
